@@ -384,6 +384,13 @@ def main():
         return
     cmd, prop = sys.argv[1], sys.argv[2]
     args = sys.argv[3:]
+    if cmd == 'run':
+        # work from a frozen copy of the repository: /repo may change (fix
+        # commits) while a campaign is running
+        global REPO
+        base = '/var/tmp/mut_base_%s_%d' % (prop, os.getpid())
+        make_copy(base)
+        REPO = base
     ms = enumerate_mutants(prop)
     if cmd == 'list':
         for m in ms:
@@ -458,6 +465,7 @@ def main():
     for i in range(jobs):
         for d in ('/var/tmp/mut_%s_%d_%d' % (prop, os.getpid(), i), '/var/tmp/mut_%s_%d_%d_ev' % (prop, os.getpid(), i)):
             shutil.rmtree(d, ignore_errors=True)
+    shutil.rmtree('/var/tmp/mut_base_%s_%d' % (prop, os.getpid()), ignore_errors=True)
 
 
 
